@@ -128,6 +128,18 @@ def cases_for(tier, rng):
                             cases.append(dict(prog=[T('<'), blk, T('>'), V('x')],
                                               src=sources(kw={'seq': lst('S', items, ck), 'x': plain('outer-x')}), K=0, fk=[],
                                               svn=svn_table()))
+    # mixed sequences: every element is pushed (or not) by its own kind -- objects, strings, numbers, pairs, None in one loop
+    kinds = ('obj', 'str', 'num', 'pair', 'pairs')
+    for n in (2, 3, 4):
+        for ks in itertools.product(kinds, repeat=n):
+            if len(set(ks)) < 2 or (n == 4 and rng.random() < 0.85):
+                continue
+            items = [elem(k, i, ('x1', 'x2')[i % 2]) for i, k in enumerate(ks)]
+            bd = [T('['), V('sequence-index'), T(':'), V('x'), T(']')]
+            for ck in ('list', 'gen'):
+                for opts in (dict(), dict(start=1, size=n), dict(reverse=True)):
+                    cases.append(dict(prog=[T('<'), In(N('seq'), bd, **opts), T('>'), V('x')],
+                                      src=sources(kw={'seq': lst('S', items, ck), 'x': plain('outer-x')}), K=0, fk=[], svn=svn_table()))
     # None is an element like any other (every pattern of None / string elements, every container)
     for n in range(1, 5):
         for pat in itertools.product((False, True), repeat=n):
